@@ -252,14 +252,15 @@ Proof.
   revert x; induction w as [|w IH]; intros x H.
   - change (2 ^ N.of_nat 0) with 1 in H. assert (x = 0) as -> by lia. reflexivity.
   - cbn [bits_of_N last_true]. rewrite Nat2N.inj_succ, N.pow_succ_r' in H.
-    pose proof (N_div2_odd x) as Hx. rewrite IH by lia.
+    pose proof (N_div2_odd x) as Hx.
+    assert (Hq : N.div2 x < 2 ^ N.of_nat w) by lia. rewrite (IH _ Hq).
     destruct (N.eqb_spec (N.div2 x) 0) as [E|E].
     + rewrite E in Hx. destruct (N.odd x); cbn [N.b2n] in Hx; subst x; reflexivity.
     + destruct (N.eqb_spec x 0) as [E0|E0]; [subst x; exfalso; apply E; reflexivity|].
       f_equal. rewrite Hx at 2.
       destruct (N.odd x); cbn [N.b2n].
-      * rewrite N.log2_succ_double by lia. reflexivity.
-      * rewrite N.add_0_r, N.log2_double by lia. reflexivity.
+      * rewrite N.log2_succ_double by (apply N.neq_0_lt_0; exact E). reflexivity.
+      * rewrite N.add_0_r, N.log2_double by (apply N.neq_0_lt_0; exact E). reflexivity.
 Qed.
 
 (* ------------------------------------------------------------------ priorityEncoder *)
@@ -351,3 +352,413 @@ Qed.
 
 Theorem bpo2_wide_refuted : exists w x, x < 2 ^ N.of_nat w /\ bpo2_gen (bits_of_N w x) = None.
 Proof. exists 32%nat, 1. split; [reflexivity|]. vm_compute. reflexivity. Qed.
+
+(* ------------------------------------------------------------------ priorityEncoderTree *)
+Fixpoint chunk_ok (k : nat) (cs : list bits) : Prop :=
+  match cs with
+  | [] => True
+  | c :: r => (length c <= k)%nat /\ (r <> [] -> length c = k) /\ chunk_ok k r
+  end.
+
+Lemma chunks_concat fuel k l : (0 < k)%nat -> (length l <= fuel)%nat -> concat (chunks fuel k l) = l.
+Proof.
+  intro Hk. revert l; induction fuel as [|f IH]; intros l H.
+  - destruct l; [reflexivity|simpl in H; lia].
+  - cbn [chunks]. destruct l as [|x l]; [reflexivity|].
+    cbn [concat]. rewrite IH; [apply firstn_skipn|].
+    rewrite skipn_length. simpl length in *. lia.
+Qed.
+
+Lemma chunks_ok fuel k l : (0 < k)%nat -> (length l <= fuel)%nat -> chunk_ok k (chunks fuel k l).
+Proof.
+  intro Hk. revert l; induction fuel as [|f IH]; intros l H; [exact I|].
+  cbn [chunks]. destruct l as [|x l]; [exact I|].
+  cbn [chunk_ok]. split; [apply firstn_le_length|]. split.
+  - intro Hne. apply firstn_length_le.
+    destruct (le_lt_dec k (length (x :: l))) as [Hle|Hlt]; [exact Hle|].
+    exfalso. apply Hne. rewrite skipn_all2 by lia. destruct f; reflexivity.
+  - apply IH. rewrite skipn_length. simpl length in *. lia.
+Qed.
+
+Lemma chunk_ok_in k cs c : chunk_ok k cs -> In c cs -> (length c <= k)%nat.
+Proof.
+  induction cs as [|d r IH]; intros H Hin; [destruct Hin|].
+  destruct H as (H1 & _ & H3). destruct Hin as [<-|Hin]; auto.
+Qed.
+
+Definition sel_f := (fun '(i, r) (st : option N * option N * bool) =>
+                       if snd (r : pe_result) : bool then (Some (i : N), fst r, true) else st).
+
+Lemma combine_fold k cs s :
+  (0 < k)%nat -> chunk_ok k cs ->
+  fold_right sel_f (None, None, false) (indexed_from s (map prienc cs)) =
+  match first_true (concat cs) with
+  | None => (None, None, false)
+  | Some p => (Some (s + p / N.of_nat k), Some (p mod N.of_nat k), true)
+  end.
+Proof.
+  intros Hk. revert s; induction cs as [|c r IH]; intros s Hok; [reflexivity|].
+  destruct Hok as (Hlen & Hfull & Hok).
+  cbn [map indexed_from fold_right concat sel_f]. rewrite prienc_correct. cbn [fst snd].
+  rewrite first_true_app. rewrite IH by exact Hok.
+  destruct (first_true c) as [l|] eqn:E.
+  - assert (Hnz : N_of_bits c <> 0).
+    { intro Hz. apply first_true_none_iff in Hz. congruence. }
+    replace (N_of_bits c =? 0) with false by (symmetry; apply N.eqb_neq; exact Hnz). cbn [negb].
+    destruct (first_true_spec c l E) as (_ & _ & Hl).
+    rewrite N.div_small, N.mod_small by lia. rewrite N.add_0_r. reflexivity.
+  - assert (Hz : N_of_bits c = 0) by (apply first_true_none_iff; exact E).
+    rewrite Hz. cbn [N.eqb negb].
+    destruct (first_true (concat r)) as [p|] eqn:Er; cbn [option_map]; [|reflexivity].
+    assert (Hr : r <> []) by (intro Hr; subst r; discriminate).
+    rewrite (Hfull Hr).
+    assert (HK : N.of_nat k <> 0) by lia.
+    assert (Hd : (N.of_nat k + p) / N.of_nat k = 1 + p / N.of_nat k).
+    { replace (N.of_nat k + p) with (1 * N.of_nat k + p) by lia. apply N.div_add_l; exact HK. }
+    assert (Hm : (N.of_nat k + p) mod N.of_nat k = p mod N.of_nat k).
+    { replace (N.of_nat k + p) with (p + 1 * N.of_nat k) by lia. apply N.mod_add; exact HK. }
+    rewrite Hd, Hm. f_equal. f_equal. f_equal. lia.
+Qed.
+
+Lemma petree_combine_prienc lw k v cs :
+  (0 < k)%nat -> 2 ^ lw = N.of_nat k -> chunk_ok k cs -> concat cs = v ->
+  petree_combine lw (map prienc cs) = prienc v.
+Proof.
+  intros Hk HK Hok Hc. unfold petree_combine.
+  change (fold_right _ (None, None, false) (indexed_from 0 (map prienc cs)))
+    with (fold_right sel_f (None, None, false) (indexed_from 0 (map prienc cs))).
+  rewrite (combine_fold k cs 0 Hk Hok), Hc, prienc_correct.
+  destruct (first_true v) as [p|] eqn:E.
+  - assert (Hnz : N_of_bits v <> 0).
+    { intro Hz. apply first_true_none_iff in Hz. congruence. }
+    replace (N_of_bits v =? 0) with false by (symmetry; apply N.eqb_neq; exact Hnz). cbn [negb].
+    f_equal. f_equal. rewrite HK, N.add_0_l.
+    assert (N.of_nat k <> 0) by lia.
+    rewrite (N.div_mod p (N.of_nat k)) at 3 by assumption. lia.
+  - assert (Hz : N_of_bits v = 0) by (apply first_true_none_iff; exact E).
+    rewrite Hz. reflexivity.
+Qed.
+
+Lemma petree_fuel_eq fuel bps v :
+  petree_fuel fuel bps v =
+  let ibps := petree_ibps bps (N.of_nat (length v)) in
+  if ibps <=? 1 then prienc v else
+  match fuel with
+  | O => (None, false)
+  | S f => petree_combine (bw_count ibps)
+             (map (petree_fuel f bps) (chunks (length v) (N.to_nat ibps) v))
+  end.
+Proof. destruct fuel; reflexivity. Qed.
+
+(* facts about inBitsPerStep = nextPow2(ceil(n / 2^bps)) when the tree does not bottom out *)
+Lemma petree_ibps_facts bps n :
+  1 <= bps -> 1 < petree_ibps bps n ->
+  petree_ibps bps n < n /\ 2 ^ bw_count (petree_ibps bps n) = petree_ibps bps n.
+Proof.
+  intros Hb H1. unfold petree_ibps in *. cbv zeta in *.
+  set (S := 2 ^ bps) in *.
+  assert (HS2 : 2 <= S).
+  { unfold S. change 2 with (2 ^ 1) at 1. apply N.pow_le_mono_r; lia. }
+  assert (Hdiv : S * ((n + S - 1) / S) <= n + S - 1) by (apply N.mul_div_le; lia).
+  set (c := (n + S - 1) / S) in *. clearbody c. clearbody S.
+  unfold next_pow2 in *.
+  assert (Hc2 : 2 <= c).
+  { destruct (N.eq_dec c 0) as [E|E]; [rewrite E in H1; vm_compute in H1; discriminate|].
+    destruct (N.eq_dec c 1) as [E1|E1]; [rewrite E1 in H1; vm_compute in H1; discriminate|]. lia. }
+  replace (c =? 0) with false in * by (symmetry; apply N.eqb_neq; lia).
+  rewrite log2c_log2_up in * by lia.
+  set (L := N.log2_up c) in *.
+  assert (HL : 2 ^ N.pred L < c <= 2 ^ L) by (apply N.log2_up_spec; lia).
+  assert (HLpos : 0 < L) by (apply N.log2_up_pos; lia).
+  assert (HP : 2 ^ L = 2 * 2 ^ N.pred L).
+  { rewrite <- N.pow_succ_r', N.succ_pred by lia. reflexivity. }
+  split.
+  - set (P := 2 ^ N.pred L) in *.
+    assert (S * (P + 1) <= S * c) by (apply N.mul_le_mono_l; lia).
+    assert (2 * P <= S * P) by (apply N.mul_le_mono_r; lia).
+    lia.
+  - unfold bw_count.
+    assert (H2L : 2 <= 2 ^ L).
+    { change 2 with (2 ^ 1) at 1. apply N.pow_le_mono_r; lia. }
+    destruct (N.leb_spec (2 ^ L) 1); [lia|].
+    rewrite log2c_log2_up by lia. rewrite N.log2_up_pow2 by lia. reflexivity.
+Qed.
+
+Lemma petree_fuel_correct bps :
+  1 <= bps -> forall fuel v, (length v <= fuel)%nat -> petree_fuel fuel bps v = prienc v.
+Proof.
+  intros Hb. induction fuel as [|f IH]; intros v Hv; rewrite petree_fuel_eq; cbv zeta.
+  - destruct (N.leb_spec (petree_ibps bps (N.of_nat (length v))) 1) as [Hle|Hgt]; [reflexivity|].
+    destruct (petree_ibps_facts bps _ Hb Hgt) as [Hlt _]. lia.
+  - destruct (N.leb_spec (petree_ibps bps (N.of_nat (length v))) 1) as [Hle|Hgt]; [reflexivity|].
+    destruct (petree_ibps_facts bps _ Hb Hgt) as [Hlt Hpow].
+    set (ib := petree_ibps bps (N.of_nat (length v))) in *.
+    assert (Hk : (0 < N.to_nat ib)%nat) by lia.
+    pose proof (chunks_ok (length v) (N.to_nat ib) v Hk (le_n _)) as Hok.
+    pose proof (chunks_concat (length v) (N.to_nat ib) v Hk (le_n _)) as Hcc.
+    rewrite map_ext_in with (g := prienc).
+    + apply petree_combine_prienc with (k := N.to_nat ib); auto. rewrite N2Nat.id. exact Hpow.
+    + intros c Hin. apply IH. pose proof (chunk_ok_in _ _ _ Hok Hin). lia.
+Qed.
+
+(* priorityEncoderTree = priorityEncoder, for every operand width and every bps >= 1 *)
+Theorem petree_correct bps v : 1 <= bps -> petree bps v = prienc v.
+Proof. intro Hb. unfold petree. apply petree_fuel_correct; [exact Hb|apply le_n]. Qed.
+
+(* ------------------------------------------------------------------ registered tree *)
+Lemma skipn_skipn' {A} a b (l : list A) : skipn a (skipn b l) = skipn (b + a) l.
+Proof.
+  revert l; induction b as [|b IH]; intro l; [reflexivity|].
+  destruct l as [|x l]; [rewrite !skipn_nil; reflexivity|]. cbn [skipn Nat.add]. apply IH.
+Qed.
+
+Lemma firstn_min_len {A} k (l : list A) : firstn (Nat.min k (length l)) l = firstn k l.
+Proof.
+  destruct (le_lt_dec k (length l)) as [H|H].
+  - rewrite Nat.min_l by exact H. reflexivity.
+  - rewrite Nat.min_r by lia. rewrite firstn_all, firstn_all2 by lia. reflexivity.
+Qed.
+
+Lemma ranges_zero f k off : ranges f k off 0 = [].
+Proof. destruct f; reflexivity. Qed.
+
+Lemma ranges_chunks fuel k off n (v : bits) :
+  (length v - off = n)%nat ->
+  map (fun '(o, s) => slice o s v) (ranges fuel k off n) = chunks fuel k (skipn off v).
+Proof.
+  revert off n; induction fuel as [|f IH]; intros off n H; [reflexivity|].
+  cbn [ranges chunks].
+  assert (Hl : length (skipn off v) = n) by (rewrite skipn_length; exact H).
+  destruct n as [|n].
+  - destruct (skipn off v); [reflexivity|discriminate].
+  - destruct (skipn off v) as [|x l] eqn:E; [discriminate|].
+    cbn [map]. f_equal.
+    + unfold slice. rewrite E, <- Hl. apply firstn_min_len.
+    + rewrite (IH (off + k)%nat (S n - k)%nat) by lia.
+      rewrite <- E, skipn_skipn'. reflexivity.
+Qed.
+
+Lemma ranges_in fuel k off n o s :
+  In (o, s) (ranges fuel k off n) -> (s <= k /\ s <= n + off - o /\ off <= o)%nat.
+Proof.
+  revert off n; induction fuel as [|f IH]; intros off n H; [destruct H|].
+  cbn [ranges] in H. destruct n as [|n]; [destruct H|].
+  destruct H as [H|H].
+  - injection H as <- <-. lia.
+  - destruct (le_lt_dec k (S n)) as [Hle|Hlt].
+    + apply IH in H. lia.
+    + replace (S n - k)%nat with 0%nat in H by lia. rewrite ranges_zero in H. destruct H.
+Qed.
+
+Lemma somes_map {A B} (g : A -> option B) (h : A -> B) L :
+  (forall x, In x L -> g x = None \/ g x = Some (h x)) ->
+  forallb is_some (map g L) = true -> somes (map g L) = map h L.
+Proof.
+  induction L as [|a L IH]; intros Hg Hall; [reflexivity|].
+  cbn [map forallb somes] in *. apply andb_prop in Hall as [Ha Hall].
+  destruct (Hg a (or_introl eq_refl)) as [E|E]; rewrite E in *; [discriminate|].
+  f_equal. apply IH; auto. intros x Hx. apply Hg. right; exact Hx.
+Qed.
+
+Lemma petree_reg_fuel_eq fuel bps n inp t :
+  petree_reg_fuel fuel bps n inp t =
+  let ibps := petree_ibps bps (N.of_nat n) in
+  if ibps <=? 1 then Some (prienc (inp t)) else
+  match fuel with
+  | O => None
+  | S f =>
+    match t with
+    | O => None
+    | S t' =>
+      let lower := map (fun '(o, s) => petree_reg_fuel f bps s (fun u => slice o s (inp u)) t')
+                       (ranges n (N.to_nat ibps) 0 n) in
+      if forallb is_some lower then Some (petree_combine (bw_count ibps) (somes lower)) else None
+    end
+  end.
+Proof. destruct fuel; reflexivity. Qed.
+
+(* With the operand held constant the registered tree, once its registers are loaded,
+   returns the priority encoder result. *)
+Lemma petree_reg_const_fuel bps :
+  1 <= bps -> forall fuel n v t, length v = n -> (n <= fuel)%nat ->
+  petree_reg_fuel fuel bps n (fun _ => v) t = None \/
+  petree_reg_fuel fuel bps n (fun _ => v) t = Some (prienc v).
+Proof.
+  intro Hb. induction fuel as [|f IH]; intros n v t Hn Hf; rewrite petree_reg_fuel_eq; cbv zeta.
+  - destruct (N.leb_spec (petree_ibps bps (N.of_nat n)) 1); auto.
+  - destruct (N.leb_spec (petree_ibps bps (N.of_nat n)) 1) as [Hle|Hgt]; auto.
+    destruct t as [|t']; auto.
+    destruct (petree_ibps_facts bps _ Hb Hgt) as [Hlt Hpow].
+    set (ib := petree_ibps bps (N.of_nat n)) in *.
+    set (g := fun '(o, s) => petree_reg_fuel f bps s (fun _ : nat => slice o s v) t').
+    change (map _ (ranges n (N.to_nat ib) 0 n)) with (map g (ranges n (N.to_nat ib) 0 n)).
+    destruct (forallb is_some (map g (ranges n (N.to_nat ib) 0 n))) eqn:Eall; auto.
+    right. f_equal.
+    rewrite (somes_map g (fun '(o, s) => prienc (slice o s v))); [| |exact Eall].
+    + assert (Hk : (0 < N.to_nat ib)%nat) by lia.
+      assert (E2 : map (fun '(o, s) => prienc (slice o s v)) (ranges n (N.to_nat ib) 0 n)
+                   = map prienc (map (fun '(o, s) => slice o s v) (ranges n (N.to_nat ib) 0 n))).
+      { rewrite map_map. apply map_ext. intros [o s]. reflexivity. }
+      rewrite E2.
+      rewrite (ranges_chunks n (N.to_nat ib) 0 n v) by lia. cbn [skipn].
+      subst n.
+      apply petree_combine_prienc with (k := N.to_nat ib); auto.
+      * rewrite N2Nat.id. exact Hpow.
+      * apply chunks_ok; auto.
+      * apply chunks_concat; auto.
+    + intros [o s] Hin. unfold g. apply ranges_in in Hin.
+      apply IH; [|lia]. unfold slice. rewrite firstn_length, skipn_length. lia.
+Qed.
+
+Theorem petree_reg_const bps v t :
+  1 <= bps ->
+  petree_reg bps (length v) (fun _ => v) t = None \/
+  petree_reg bps (length v) (fun _ => v) t = Some (prienc v).
+Proof. intro Hb. unfold petree_reg. apply petree_reg_const_fuel; auto. Qed.
+
+(* ... and it is loaded after at most (length v) cycles *)
+Lemma petree_reg_filled_fuel bps :
+  1 <= bps -> forall fuel n inp t, (n <= fuel)%nat -> (n <= t)%nat ->
+  petree_reg_fuel fuel bps n inp t <> None.
+Proof.
+  intro Hb. induction fuel as [|f IH]; intros n inp t Hf Ht; rewrite petree_reg_fuel_eq; cbv zeta.
+  - destruct (N.leb_spec (petree_ibps bps (N.of_nat n)) 1) as [Hle|Hgt]; [discriminate|].
+    destruct (petree_ibps_facts bps _ Hb Hgt) as [Hlt _]. lia.
+  - destruct (N.leb_spec (petree_ibps bps (N.of_nat n)) 1) as [Hle|Hgt]; [discriminate|].
+    destruct (petree_ibps_facts bps _ Hb Hgt) as [Hlt _].
+    destruct t as [|t']; [lia|].
+    set (ib := petree_ibps bps (N.of_nat n)) in *.
+    match goal with |- (if forallb is_some ?L then _ else _) <> None =>
+      assert (Hall : forallb is_some L = true) end.
+    { apply forallb_forall. intros x Hx. apply in_map_iff in Hx as ([o s] & <- & Hin).
+      apply ranges_in in Hin.
+      destruct (petree_reg_fuel f bps s (fun u => slice o s (inp u)) t') eqn:E; [reflexivity|].
+      exfalso. revert E. apply IH; lia. }
+    rewrite Hall. discriminate.
+Qed.
+
+(* the sub-trees of one level can have different depths (a clamped last chunk bottoms out
+   earlier), their registers are not balanced: with a changing operand the result mixes
+   operands of different cycles, so no single latency d describes the registered tree *)
+Theorem petree_reg_unbalanced_refuted :
+  let inp := fun u => bits_of_N 5 (nth u [16; 1; 2] 0) in
+  forall d, (d <= 2)%nat -> petree_reg 1 5 inp 2 <> Some (prienc (inp (2 - d)%nat)).
+Proof.
+  intros inp d Hd.
+  destruct d as [|[|[|d]]]; [vm_compute; discriminate..|lia].
+Qed.
+
+(* ------------------------------------------------------------------ gray code *)
+Lemma map2_xorb_snoc_false r : map2 xorb r (tl r ++ [false]) = map2 xorb r (shr1 r).
+Proof. destruct r; reflexivity. Qed.
+
+Lemma gray_encode_cons b r : gray_encode (b :: r) = xorb b (hd false r) :: gray_encode r.
+Proof.
+  unfold gray_encode. cbn [shr1]. destruct r as [|c r]; [destruct b; reflexivity|].
+  cbn [app map2 hd shr1]. reflexivity.
+Qed.
+
+Lemma gray_decode_cons x g : gray_decode (x :: g) = xorb (hd false (gray_decode g)) x :: gray_decode g.
+Proof. cbn [gray_decode]. destruct g; [destruct x; reflexivity|reflexivity]. Qed.
+
+Lemma gray_encode_length v : length (gray_encode v) = length v.
+Proof. induction v as [|b r IH]; [reflexivity|]. rewrite gray_encode_cons. cbn [length]. rewrite IH. reflexivity. Qed.
+
+Lemma gray_decode_length v : length (gray_decode v) = length v.
+Proof. induction v as [|b r IH]; [reflexivity|]. rewrite gray_decode_cons. cbn [length]. rewrite IH. reflexivity. Qed.
+
+(* grayDecode (grayEncode x) = x, every width *)
+Theorem gray_decode_encode v : gray_decode (gray_encode v) = v.
+Proof.
+  induction v as [|b r IH]; [reflexivity|].
+  rewrite gray_encode_cons, gray_decode_cons, IH.
+  f_equal. destruct b, (hd false r); reflexivity.
+Qed.
+
+Theorem gray_encode_decode g : gray_encode (gray_decode g) = g.
+Proof.
+  induction g as [|x g IH]; [reflexivity|].
+  rewrite gray_decode_cons, gray_encode_cons, IH.
+  f_equal. destruct x, (hd false (gray_decode g)); reflexivity.
+Qed.
+
+Lemma hamming_refl v : hamming v v = 0.
+Proof. induction v as [|b r IH]; [reflexivity|]. cbn [hamming]. rewrite xorb_nilpotent, IH. reflexivity. Qed.
+
+Lemma hd_bits_succ r : r <> [] -> hd false (bits_succ r) = negb (hd false r).
+Proof. destruct r as [|[|] r]; intro H; [congruence|reflexivity|reflexivity]. Qed.
+
+(* consecutive code words (including the wrap from 2^w - 1 to 0) differ in exactly one bit *)
+Theorem gray_adjacent v : v <> [] -> hamming (gray_encode v) (gray_encode (bits_succ v)) = 1.
+Proof.
+  induction v as [|b r IH]; intro Hne; [congruence|].
+  destruct b; cbn [bits_succ]; rewrite !gray_encode_cons; cbn [hamming].
+  - destruct r as [|c r].
+    + reflexivity.
+    + rewrite hd_bits_succ by discriminate. rewrite IH by discriminate.
+      destruct (hd false (c :: r)); reflexivity.
+  - rewrite hamming_refl. destruct (hd false r); reflexivity.
+Qed.
+
+Lemma bits_succ_length v : length (bits_succ v) = length v.
+Proof. induction v as [|[|] r IH]; cbn [bits_succ length]; auto. Qed.
+
+Lemma bits_succ_N v : N_of_bits (bits_succ v) = (N_of_bits v + 1) mod 2 ^ N.of_nat (length v).
+Proof.
+  induction v as [|b r IH]; [reflexivity|].
+  cbn [length]. rewrite Nat2N.inj_succ, N.pow_succ_r'.
+  pose proof (N_of_bits_lt r) as Hlt.
+  assert (Hm : 2 ^ N.of_nat (length r) <> 0) by (apply N.pow_nonzero; discriminate).
+  destruct b; cbn [bits_succ N_of_bits N.b2n].
+  - rewrite IH.
+    replace (1 + 2 * N_of_bits r + 1) with (2 * (N_of_bits r + 1)) by lia.
+    rewrite N.mul_mod_distr_l by (try exact Hm; discriminate). lia.
+  - rewrite N.mod_small by lia. lia.
+Qed.
+
+(* the same at the number level: x and x+1 mod 2^w *)
+Theorem gray_adjacent_N w x :
+  (0 < w)%nat -> x < 2 ^ N.of_nat w ->
+  hamming (gray_encode (bits_of_N w x)) (gray_encode (bits_of_N w ((x + 1) mod 2 ^ N.of_nat w))) = 1.
+Proof.
+  intros Hw Hx.
+  assert (E : bits_of_N w ((x + 1) mod 2 ^ N.of_nat w) = bits_succ (bits_of_N w x)).
+  { apply N_of_bits_inj.
+    - rewrite bits_succ_length, !bits_of_N_length. reflexivity.
+    - rewrite bits_succ_N, bits_of_N_length, !N_of_bits_of_N.
+      rewrite N.mod_mod by (apply N.pow_nonzero; discriminate).
+      rewrite (N.mod_small x) by exact Hx. reflexivity. }
+  rewrite E. apply gray_adjacent. destruct w; [lia|discriminate].
+Qed.
+
+(* word-level reading of grayEncode: val ^ (val >> 1) *)
+Lemma nth_gray_encode v i : nth i (gray_encode v) false = xorb (nth i v false) (nth (S i) v false).
+Proof.
+  revert i; induction v as [|b r IH]; intro i; [destruct i; reflexivity|].
+  rewrite gray_encode_cons. destruct i as [|i].
+  - cbn [nth]. destruct r; reflexivity.
+  - cbn [nth]. rewrite IH. reflexivity.
+Qed.
+
+Theorem gray_encode_N w x :
+  x < 2 ^ N.of_nat w ->
+  N_of_bits (gray_encode (bits_of_N w x)) = N.lxor x (N.shiftr x 1).
+Proof.
+  intro Hx. apply N.bits_inj. intro n.
+  rewrite testbit_N_of_bits_N, nth_gray_encode, N.lxor_spec, N.shiftr_spec'.
+  assert (Hhi : forall m, (w <= m)%nat -> N.testbit x (N.of_nat m) = false).
+  { intros m Hm. destruct (N.eq_dec x 0) as [->|Hx0]; [apply N.bits_0|].
+    apply N.bits_above_log2. apply N.log2_lt_pow2; [lia|].
+    eapply N.lt_le_trans; [exact Hx|]. apply N.pow_le_mono_r; lia. }
+  assert (Hnth : forall m, nth m (bits_of_N w x) false = N.testbit x (N.of_nat m)).
+  { intro m. destruct (le_lt_dec w m) as [Hm|Hm].
+    - rewrite nth_overflow by (rewrite bits_of_N_length; exact Hm). symmetry; apply Hhi; exact Hm.
+    - apply nth_bits_of_N; exact Hm. }
+  rewrite !Hnth, N2Nat.id. f_equal. f_equal. lia.
+Qed.
+
+(* ------------------------------------------------------------------ min / max *)
+Theorem umin_correct a b : umin a b = N.min a b.
+Proof. unfold umin. destruct (N.ltb_spec b a); lia. Qed.
+Theorem umax_correct a b : umax a b = N.max a b.
+Proof. unfold umax. destruct (N.ltb_spec a b); lia. Qed.
